@@ -90,7 +90,9 @@ def render_descr(rng, parent, fgs, bgs, mods):
 
 def gen_set(rng, prefix, dangling=False):
     n = rng.randint(2, 8)
-    ids = [prefix + ("S%d" % i if rng.random() < 0.6 else "G%d.I%d" % (i % 2, i)) for i in range(n)]
+    ids = [prefix + ("S%d" % i if rng.random() < 0.5 else "G%d.I%d" % (i % 2, i) if rng.random() < 0.7
+                     else "G%d.SUB.I%d" % (i % 2, i) if rng.random() < 0.7 else "APP.G%d.SUB%d.I%d" % (i % 2, i % 2, i))
+           for i in range(n)]
     late_missing = prefix + "MISSING.X"
     items = {}
     for i, sid in enumerate(ids):
@@ -167,13 +169,22 @@ def chain_len(items, sid, registered):
 
 
 def nest(flat):
+    """flat dotted ids -> nested dictionaries (as deep as the ids have components)"""
     out = {}
     for k, v in flat.items():
-        if '.' in k:
-            a, b = k.split('.', 1)
-            out.setdefault(a, {})[b] = v
+        parts = k.split('.')
+        d = out
+        clash = False
+        for p in parts[:-1]:
+            nxt = d.setdefault(p, {})
+            if not isinstance(nxt, dict):
+                clash = True
+                break
+            d = nxt
+        if clash or isinstance(d.get(parts[-1]), dict):
+            out[k] = v       # cannot be nested next to an item of the same name: keep it flat
         else:
-            out[k] = v
+            d[parts[-1]] = v
     return out
 
 
@@ -269,6 +280,12 @@ def run_history(ctx, items, plan, mode, case):
         except Exception as err:
             fail("valid-configuration-rejected", {"type": type(err).__name__, "msg": str(err)[:200], "init": init})
         registered |= set(init)
+        if plan.get("plain_global_palette") and mode == "local":
+            # somebody asks for the effect-free variant of this configuration's global palette
+            try:
+                akcolor.GlobalPalette(colors_conf=conf, no_color=True)
+            except Exception as err:
+                fail("palette-construction-raises", {"type": type(err).__name__, "msg": str(err)[:150]})
         if plan.get("early_palette"):
             # a component palette obtained before most ids are known; it is obtained again after every step
             _UNIQ[0] += 1
@@ -374,7 +391,8 @@ def make_plan(rng, items, mode):
     if mode == "global" and rng.random() < 0.7:
         pool = [i for i in items if not items[i].get('late')]
         swap = [i for i in pool if items[i]['initial_only'] or rng.random() < 0.4]
-    return {"init": init, "batches": batches, "early_palette": rng.random() < 0.5, "swap": swap}
+    return {"init": init, "batches": batches, "early_palette": rng.random() < 0.5, "swap": swap,
+            "plain_global_palette": rng.random() < 0.3}
 
 
 def run_shard(ctx):
